@@ -321,7 +321,11 @@ func checkHeaderInfoGetters(w *World, r *Report) {
 	st := T.Underlying().(*types.Struct)
 	// field <- key
 	fieldKey := map[int]string{}
-	for _, b := range rh.Blocks {
+	var rhBlocks []*ssa.BasicBlock
+	for _, f := range w.funcFamily(rh) {
+		rhBlocks = append(rhBlocks, f.Blocks...)
+	}
+	for _, b := range rhBlocks {
 		for _, in := range b.Instrs {
 			s, ok := in.(*ssa.Store)
 			if !ok {
